@@ -33,7 +33,7 @@ def units(tier, seed):
         {"sid": "list", "family": "lists", "size": 10 if q else 14, "donor": ("lists", 8), "max_slices": 8 if q else 40},
         {"sid": "basic", "family": "inline_s", "size": 4 if q else 6, "donor": ("inline_s", 3), "max_slices": 10 if q else 30},
         {"sid": "list", "family": "lists_q", "size": 8 if q else 11, "donor": ("lists_q", 7), "max_slices": 10 if q else 30},
-        {"sid": "list", "family": "astral", "size": 4 if q else 5, "donor": ("astral", 4), "max_slices": 12 if q else 30},
+        {"sid": "list", "family": "astral", "size": 5 if q else 6, "donor": ("astral", 4), "max_slices": 8 if q else 30},
     ]
     extra = [
         {"sid": "table", "family": "table", "size": 10 if q else 14, "donor": ("table", 10), "max_slices": 10 if q else 30},
